@@ -274,6 +274,11 @@ class InterSystemRecurrenceNetwork(InteractingNetworks):
 
         #  Set diagonal of ISRM to zero to avoid self-loops
         ISRM.flat[::self.N + 1] = 0
+
+        #  Update an already existing network
+        self.threshold = threshold
+        if hasattr(self, "_mut_A"):
+            self.adjacency = ISRM
         return ISRM
 
     def set_fixed_recurrence_rate(self, density):
@@ -306,6 +311,11 @@ class InterSystemRecurrenceNetwork(InteractingNetworks):
 
         #  Set diagonal of ISRM to zero to avoid self-loops
         ISRM.flat[::self.N + 1] = 0
+
+        #  Update an already existing network
+        self.threshold = None
+        if hasattr(self, "_mut_A"):
+            self.adjacency = ISRM
         return ISRM
 
     #
